@@ -13,8 +13,11 @@ import os
 import sys
 from fractions import Fraction
 
+import mpmath as mp
+
 import vlib
 
+mp.mp.dps = 40
 FN = 20
 GEN_DEPS = ('transpiler',)
 POINTS = [Fraction(-5, 2), Fraction(-1), Fraction(0), Fraction(1, 2), Fraction(1), Fraction(3)]
@@ -99,49 +102,56 @@ def _boolv(x):
 
 
 def _pow(b, e):
-    try:
-        if b > 0:
-            return b ** e
-        if e == int(e):
-            if b == 0:
-                if e > 0:
-                    return 0.0
-                if e == 0:
-                    return 1.0
-                raise Undef()
-            return b ** int(e)
-    except (OverflowError, ZeroDivisionError):
-        raise Undef()
+    if b > 0:
+        if abs(e * mp.log(b)) > 1e4:
+            raise Undef()
+        return mp.power(b, e)
+    if e == int(e):
+        if b == 0:
+            if e > 0:
+                return mp.mpf(0)
+            if e == 0:
+                return mp.mpf(1)
+            raise Undef()
+        if abs(e) > 1e4:
+            raise Undef()
+        return b ** int(e)
     raise Undef()        # negative base, non-integer exponent: no real value
 
 
-def _g(f):
+def _g(f, dom=None):
     def w(x):
+        if dom is not None and not dom(x):
+            raise Undef()
         try:
             r = f(x)
         except (ValueError, ZeroDivisionError, OverflowError):
             raise Undef()
-        if isinstance(r, complex) or r != r or abs(r) == math.inf:
+        if isinstance(r, mp.mpc) or not mp.isfinite(r):
             raise Undef()
         return r
     return w
 
 
-# A&S 4.3 / 4.4 / 4.5 / 4.6; arccot x = arctan(1/x) (branch of the implementation, DESIGN section 6)
+def _inv(f):
+    return lambda x: 1 / f(x)
+
+
+# A&S 4.3 / 4.4 / 4.5 / 4.6 at 40 digits; arccot x = arctan(1/x) (branch of the implementation, DESIGN section 6)
+_small = lambda x: abs(x) < 1e4
 UNARY = {
-    'exp': _g(math.exp), 'ln': _g(math.log), 'abs': _g(abs), 'floor': _g(lambda x: float(math.floor(x))),
-    'ceiling': _g(lambda x: float(math.ceil(x))),
-    'sin': _g(math.sin), 'cos': _g(math.cos), 'tan': _g(math.tan),
-    'sec': _g(lambda x: 1 / math.cos(x)), 'csc': _g(lambda x: 1 / math.sin(x)), 'cot': _g(lambda x: math.cos(x) / math.sin(x)),
-    'sinh': _g(math.sinh), 'cosh': _g(math.cosh), 'tanh': _g(math.tanh),
-    'sech': _g(lambda x: 1 / math.cosh(x)), 'csch': _g(lambda x: 1 / math.sinh(x)),
-    'coth': _g(lambda x: math.cosh(x) / math.sinh(x)),
-    'arcsin': _g(math.asin), 'arccos': _g(math.acos), 'arctan': _g(math.atan),
-    'arcsec': _g(lambda x: math.acos(1 / x)), 'arccsc': _g(lambda x: math.asin(1 / x)),
-    'arccot': _g(lambda x: math.atan(1 / x)),
-    'arcsinh': _g(math.asinh), 'arccosh': _g(math.acosh), 'arctanh': _g(math.atanh),
-    'arcsech': _g(lambda x: math.acosh(1 / x)), 'arccsch': _g(lambda x: math.asinh(1 / x)),
-    'arccoth': _g(lambda x: math.atanh(1 / x)),
+    'exp': _g(mp.exp, _small), 'ln': _g(mp.log, lambda x: x > 0), 'abs': _g(abs), 'floor': _g(mp.floor), 'ceiling': _g(mp.ceil),
+    'sin': _g(mp.sin), 'cos': _g(mp.cos), 'tan': _g(mp.tan),
+    'sec': _g(_inv(mp.cos)), 'csc': _g(_inv(mp.sin)), 'cot': _g(lambda x: mp.cos(x) / mp.sin(x)),
+    'sinh': _g(mp.sinh, _small), 'cosh': _g(mp.cosh, _small), 'tanh': _g(mp.tanh),
+    'sech': _g(_inv(mp.cosh), _small), 'csch': _g(_inv(mp.sinh), _small),
+    'coth': _g(lambda x: mp.cosh(x) / mp.sinh(x), _small),
+    'arcsin': _g(mp.asin, lambda x: abs(x) <= 1), 'arccos': _g(mp.acos, lambda x: abs(x) <= 1), 'arctan': _g(mp.atan),
+    'arcsec': _g(lambda x: mp.acos(1 / x), lambda x: abs(x) >= 1), 'arccsc': _g(lambda x: mp.asin(1 / x), lambda x: abs(x) >= 1),
+    'arccot': _g(lambda x: mp.atan(1 / x), lambda x: x != 0),
+    'arcsinh': _g(mp.asinh), 'arccosh': _g(mp.acosh, lambda x: x >= 1), 'arctanh': _g(mp.atanh, lambda x: abs(x) < 1),
+    'arcsech': _g(lambda x: mp.acosh(1 / x), lambda x: 0 < x <= 1), 'arccsch': _g(lambda x: mp.asinh(1 / x), lambda x: x != 0),
+    'arccoth': _g(lambda x: mp.atanh(1 / x), lambda x: abs(x) > 1),
 }
 RELS = {'eq': lambda a, b: a == b, 'neq': lambda a, b: a != b, 'lt': lambda a, b: a < b, 'leq': lambda a, b: a <= b,
         'gt': lambda a, b: a > b, 'geq': lambda a, b: a >= b}
@@ -202,14 +212,15 @@ def operand(t, env):
             raise Malformed('ci content')
         return env['v'][text.strip()]
     if tag == 'cn':
-        return float(cn_exact(t))
+        q = cn_exact(t)
+        return mp.mpf(q.numerator) / q.denominator
     if tag in CONSTS:
         if ch:
             raise Malformed('constant with children')
         if tag == 'pi':
-            return math.pi
+            return +mp.pi
         if tag == 'exponentiale':
-            return math.e
+            return +mp.e
         if tag in ('true', 'false'):
             return tag == 'true'
         raise Undef()
@@ -333,23 +344,23 @@ def apply(ch, env):
             d = _real(operand(args[0][4][0], env))
             x = _real(operand(args[1], env))
         elif len(args) == 1:
-            d, x = 2.0, _real(operand(args[0], env))
+            d, x = mp.mpf(2), _real(operand(args[0], env))
         else:
             raise Malformed('root')
         if d == 0:
             raise Undef()
-        return _pow(x, 1.0 / d)
+        return _pow(x, 1 / d)
     if op == 'log':
         if len(args) == 2 and args[0][0] == 'logbase' and len(args[0][4]) == 1:
             b = _real(operand(args[0][4][0], env))
             x = _real(operand(args[1], env))
         elif len(args) == 1:
-            b, x = 10.0, _real(operand(args[0], env))
+            b, x = mp.mpf(10), _real(operand(args[0], env))
         else:
             raise Malformed('log')
         if b <= 0 or b == 1 or x <= 0:
             raise Undef()
-        return math.log(x) / math.log(b)
+        return mp.log(x) / mp.log(b)
     if op == 'diff':
         if len(args) != 2 or args[0][0] != 'bvar':
             raise Malformed('diff')
@@ -378,9 +389,9 @@ def apply(ch, env):
             raise Malformed('arity')
         xs = [_real(v) for v in vals]
         if op == 'plus':
-            return math.fsum(xs)
+            return mp.fsum(xs)
         if op == 'times':
-            p = 1.0
+            p = mp.mpf(1)
             for x in xs:
                 p *= x
             return p
@@ -417,7 +428,7 @@ def apply(ch, env):
             return _pow(a, b)
         if b == 0:
             raise Undef()
-        return a - math.floor(a / b) * b      # floored: sign of the divisor (DESIGN: choice of the implementation)
+        return a - mp.floor(a / b) * b        # floored: sign of the divisor (DESIGN: choice of the implementation)
     if n != 1:
         raise Malformed('arity')
     return UNARY[op](_real(vals[0]))
@@ -429,12 +440,17 @@ def spec_value(tree, env):
         _walk(tree)
     except Malformed as e:
         return ('malformed', str(e))
+    d0 = env['d']
+    env = {'v': {k: (mp.mpf(x.numerator) / x.denominator if isinstance(x, Fraction) else mp.mpf(x))
+                 for k, x in env['v'].items()}, 'd': lambda y, t: mp.mpf(d0(y, t))}
     try:
         v = operand(tree, env)
-    except Undef:
+    except (Undef, OverflowError, ZeroDivisionError):
         return ('undef',)
-    except OverflowError:
-        return ('undef',)
+    if isinstance(v, mp.mpf):
+        if not mp.isfinite(v) or abs(v) > 1e300:
+            return ('undef',)
+        v = float(v)
     return ('v', v)
 
 
@@ -541,7 +557,7 @@ def run_impl(case):
     vals = []
     slow = False
     for p in pts:
-        env = {sympy.Symbol(n): sympy.Rational(v.numerator, v.denominator) for n, v in zip(names, p)}
+        env = {sympy.Symbol(n): sympy.Float(sympy.Rational(v.numerator, v.denominator), 30) for n, v in zip(names, p)}
         v = 'sym'
         if not slow:
             try:
@@ -561,6 +577,8 @@ def run_impl(case):
 
 
 def _value_at(r, env):
+    # operand values are 30-digit Floats, not exact rationals: SymPy's symbolic rewriting of exact arguments has
+    # bugs of its own (asec(csc(-1)) evaluates to pi/2 - 1 instead of pi/2 + 1) that are not the transpiler's
     import sympy
     sub = {}
     for d in r.atoms(sympy.Derivative):
@@ -665,6 +683,18 @@ def tree_values(tree_, names, pts):
     return out
 
 
+def sympy_value(mt, names, p):
+    import sympy
+    import bridge
+    syms = {encode(n): sympy.Symbol(n) for n in names}
+    try:
+        e = bridge.reflect(mt, syms, None, evaluate=False)
+        env = {sympy.Symbol(n): sympy.Float(sympy.Rational(v.numerator, v.denominator), 30) for n, v in zip(names, p)}
+        return vlib.with_alarm(5, _value_at, e, env)
+    except Exception:
+        return None
+
+
 def _name_of(code):
     s = ''
     while code > 1:
@@ -680,9 +710,19 @@ def close(a, b, tol=1e-7):
 
 
 def perturbed(p):
-    """two neighbours of a point: a value that changes between them sits on a discontinuity (floor, rem, relations,
-    piecewise) or is ill-conditioned (arcsin near 1), and binary rounding decides it -- such points are skipped"""
-    return [[float(x) * (1 + 3e-10) + 1e-11 for x in p], [float(x) * (1 - 3e-10) - 1e-11 for x in p]]
+    """neighbours of a point (all coordinates up / down, each coordinate alone up / down): a value that changes
+    between them sits on a discontinuity (floor, rem, relations, piecewise) or is ill-conditioned (arcsin near 1),
+    and binary rounding decides it -- such points are skipped"""
+    base = [float(x) for x in p]
+    up = lambda x: x * (1 + 3e-10) + 1e-11
+    dn = lambda x: x * (1 - 3e-10) - 1e-11
+    out = [[up(x) for x in base], [dn(x) for x in base]]
+    for i in range(len(base)):
+        for g in (up, dn):
+            q = list(base)
+            q[i] = g(q[i])
+            out.append(q)
+    return out
 
 
 def stable(f, p, v):
@@ -722,6 +762,9 @@ def compare_model(case, impl, m):
         if not close(a, b):
             if not stable(lambda q: tree_values(mt, names, [q])[0], p, a):
                 continue
+            a2 = sympy_value(mt, names, p)      # float saturation (tanh 27 = 1.0): evaluate the model tree exactly
+            if a2 is None or a2 == 'sym' or close(a2, b):
+                continue
             return 'value at %s=%s: model %r, implementation %r' % (names, [str(x) for x in p], a, b)
     return None
 
@@ -744,8 +787,7 @@ def oracle(case, impl):
         return bad
     specs = []
     for p in pts:
-        env = {'v': {n: float(v) for n, v in zip(names, p)}, 'd': denv}
-        specs.append(spec_value(tree, env))
+        specs.append(spec_value(tree, {'v': dict(zip(names, p)), 'd': denv}))
     if impl['cls'] == 'err':
         if any(s[0] == 'v' for s in specs):
             bad.append(('well-formed MathML with a defined value is refused (%s: %s): %s'
@@ -932,6 +974,23 @@ def gen_qualifiers():
     add(E('piecewise', [E('piece', [f.ci(), f.rel()]), f.ci()]), 'piecewise')
     add(E('piecewise', [E('degree', [f.ci()])]), 'piecewise')
     add(ap('plus', E('piecewise', [E('piece', [f.ci(), f.rel()]), E('otherwise', [f.ci()])]), f.ci()), 'piecewise')
+    # a piecewise inside a condition (SymPy folds it into an ITE, which it can do only for a total piecewise)
+    for inner in ('otherwise', 'two', 'one'):
+        for wrap in ('lt', 'eq', 'sin', 'value'):
+            f = Fresh()
+            kids = [E('piece', [f.ci(), f.rel()])]
+            if inner == 'two':
+                kids.append(E('piece', [f.ci(), f.rel('geq')]))
+            if inner == 'otherwise':
+                kids.append(E('otherwise', [f.ci()]))
+            pw = E('piecewise', kids)
+            if wrap == 'value':
+                t = E('piecewise', [E('piece', [pw, f.rel()]), E('otherwise', [f.ci()])])
+            else:
+                c = ap('lt', ap('sin', pw), f.ci()) if wrap == 'sin' else ap(wrap, pw, f.ci())
+                t = E('piecewise', [E('piece', [f.ci(), c]), E('otherwise', [f.ci()])])
+            add(t, 'piecewise')
+            add(ap('plus', t, f.ci()), 'piecewise')
     # things in operator position
     for first in (ci('f'), cn('2'), ap('plus', x, y), ap('plus', x), E('piecewise', [E('otherwise', [x])]),
                   E('pi'), E('true'), E('exponentiale'), E('infinity'), E('notanumber'), E('false'),
@@ -1012,6 +1071,7 @@ def gen_random(seed, depth_max):
     rng = random.Random(seed)
     f = Fresh()
     consts = ['2', '3', '0.5', '1.5', '4', '10', '2.5e0']
+    in_cond = [0]
 
     def leaf_real():
         r = rng.random()
@@ -1023,19 +1083,26 @@ def gen_random(seed, depth_max):
             return cn_e(rng.choice(['1.5', '2', '2.5']), rng.choice(['0', '1', '-1']))
         return E(rng.choice(['pi', 'exponentiale']))
 
-    def real(d):
+    def real(d, const_ok=False):
+        # a constant is only ever a direct operand next to a sub-tree that contains an identifier: SymPy evaluates
+        # constant sub-expressions while building (atanh(E) is complex, Max refuses it; 1/0 is zoo; ...)
+        if const_ok and rng.random() < 0.3:
+            return leaf_real()
         if d <= 0:
-            return f.ci() if rng.random() < 0.85 else leaf_real()
+            return f.ci()
         r = rng.random()
         if r < 0.08:
-            return leaf_real()
+            return f.ci()
         if r < 0.30:
             n = rng.choice([1, 2, 2, 3, 4])
-            return ap(rng.choice(NARY_REAL), *[real(d - 1) for _ in range(n)])
+            return ap(rng.choice(NARY_REAL), real(d - 1), *[real(d - 1, True) for _ in range(n - 1)])
         if r < 0.40:
-            return ap('minus', *[real(d - 1) for _ in range(rng.choice([1, 2]))])
+            return ap('minus', real(d - 1), *[real(d - 1, True) for _ in range(rng.choice([0, 1]))])
         if r < 0.55:
-            return ap(rng.choice(['divide', 'power', 'rem']), real(d - 1), real(d - 1) if rng.random() < 0.6 else leaf_real())
+            op = rng.choice(['divide', 'power', 'rem'])
+            if rng.random() < 0.25:
+                return ap(op, leaf_real(), real(d - 1))
+            return ap(op, real(d - 1), real(d - 1, True))
         if r < 0.63:
             if rng.random() < 0.5:
                 return ap('root', real(d - 1))
@@ -1050,8 +1117,18 @@ def gen_random(seed, depth_max):
             return ap(rng.choice(U_TAGS), real(d - 1))
         if r < 0.91:
             return ap('diff', E('bvar', [f.ci()]), f.ci())
+        if in_cond[0]:
+            # SymPy folds a piecewise inside a condition into an ITE (known finding partial-piecewise-in-condition
+            # when it is not total; deeper nestings are not modelled): covered by the exhaustive stratum only
+            return f.ci()
         n = rng.choice([1, 2, 3])
-        kids = [E('piece', [real(d - 1), boolean(d - 1)]) for _ in range(n)]
+        kids = []
+        for _ in range(n):
+            v = real(d - 1)
+            in_cond[0] += 1
+            c = boolean(d - 1)
+            in_cond[0] -= 1
+            kids.append(E('piece', [v, c]))
         if rng.random() < 0.7:
             kids.append(E('otherwise', [real(d - 1)]))
         return E('piecewise', kids)
@@ -1168,6 +1245,18 @@ def diff_degree_not_positive_integer(v):
     return False
 
 
+def _has_partial_piecewise(t):
+    return any(n[0] == 'piecewise' and not any(c[0] == 'otherwise' for c in n[4]) for n, _, _ in _nodes(t))
+
+
+def partial_piecewise_in_condition(v):
+    """a piecewise without <otherwise> inside the condition of a <piece>: SymPy cannot fold it into an ITE"""
+    if v.get('detail', {}).get('kind') != 'rejects-valid':
+        return False
+    return any(t[0] == 'piece' and len(t[4]) == 2 and _has_partial_piecewise(t[4][1])
+               for t, _, _ in _nodes(v['case']['tree']))
+
+
 def ignored_children(v):
     """element children of ci, cn (other than one <sep/>), of operator and constant elements are never looked at"""
     if not _accepts_malformed(v):
@@ -1181,6 +1270,7 @@ def ignored_children(v):
 
 KNOWN_PREDICATES = {
     'ignored_children': ignored_children,
+    'partial_piecewise_in_condition': partial_piecewise_in_condition,
     'operator_only_apply': operator_only_apply,
     'ln_two_operands': ln_two_operands,
     'cn_python_only_spelling': cn_python_only_spelling,
@@ -1201,6 +1291,12 @@ def evaluate(ctx, cases, impls, use_model=True):
         if mods is not None:
             ctx.corr_cases += 1
             d = compare_model(case, impl, mods[i])
+            if d is not None and case['kind'].startswith('random') and impl['cls'] == 'err' and mods[i][0] == 0 \
+                    and nowhere_defined(case['tree']):
+                # SymPy may refuse, while building, a sub-expression it can prove non-real (a relation over
+                # log(-Max(1.5, x, y))); the tree has no value at any sample point, the model does no such reasoning
+                STATS['refused_nowhere_defined'] = STATS.get('refused_nowhere_defined', 0) + 1
+                d = None
             if d is not None:
                 ctx.tie_break('correspondence C02 (Model/Transpile.v vs parser.Transpiler) differs: %s on %s'
                               % (d, xml(case['tree'])), {'case': case, 'impl': impl, 'model': mods[i]})
@@ -1208,12 +1304,17 @@ def evaluate(ctx, cases, impls, use_model=True):
             ctx.sample({'kind': case['kind'], 'mathml': xml(case['tree'])[:400]})
 
 
+def nowhere_defined(tree):
+    names, pts = points_for(tree)
+    return all(spec_value(tree, {'v': dict(zip(names, p)), 'd': denv})[0] != 'v' for p in pts)
+
+
 def exhaustive_cases():
     return gen_tag_arity() + gen_qualifiers() + gen_numbers()
 
 
 def run(ctx):
-    n = 200 if ctx.tier == 'quick' else 5000
+    n = 800 if ctx.tier == 'quick' else 5000
     ctx.rule = ('EXHAUSTIVE on every run: every tag (handlers, table, MathML 2 operators, 37 unsupported names) x arity 0..4 '
                 'x operand kind (identifier, relation, number) with distinct identifiers; every structural element with '
                 '0..4 children at the top and in its proper parent; qualifier placements (first/last/duplicated/alone/'
@@ -1264,6 +1365,8 @@ def replay(ctx, case):
     if ctx.model_ok():
         m = vlib.model_run(FN, [sx(c['tree'])])[0]
         d = compare_model(c, impl, m)
+        if d and c['kind'].startswith('random') and impl['cls'] == 'err' and m[0] == 0 and nowhere_defined(c['tree']):
+            d = None
         if d:
             return 'correspondence differs: %s' % d
     return None
